@@ -69,9 +69,13 @@ impl<'a> Ev<'a> {
                                 let mut vs = Vec::new();
                                 pat_variants(&l.pat, &mut vs);
                                 let c = json!({"k":"iflet","pat":tok(&l.pat),"scrut": if size(&v) > 800 { json!({"k":"big"}) } else { v.clone() },"variants":vs});
-                                self.guards.push(json!({"k":"if","c":c,"neg":true,"line":line_of(l),"let_else":true}));
+                                self.guards.push(json!({"k":"if","c":c.clone(),"neg":true,"line":line_of(l),"let_else":true}));
                                 let _ = self.expr(d, "let_else");
                                 self.guards.pop();
+                                // … and the rest of the block runs exactly when it does match (the frame lives until the block ends)
+                                if !vs.is_empty() {
+                                    self.guards.push(json!({"k":"if","c":c,"neg":false,"line":line_of(l),"let_else_rest":true}));
+                                }
                             }
                             v
                         }
